@@ -30,7 +30,7 @@ func AddDeleteChildren(index configapi.Index, changeValues map[string]*configapi
 		// if this pathValue has to be deleted, then we need to search for all children of this pathValue
 		if changeValue.Deleted {
 			for _, value := range configStore {
-				if strings.HasPrefix(value.Path, changeValue.Path) && !strings.EqualFold(value.Path, changeValue.Path) {
+				if isChildPath(value.Path, changeValue.Path) {
 					updChangeValues[value.Path] = value
 					updChangeValues[value.Path].Index = index
 					updChangeValues[value.Path].Deleted = true
@@ -43,4 +43,10 @@ func AddDeleteChildren(index configapi.Index, changeValues map[string]*configapi
 		}
 	}
 	return updChangeValues
+}
+
+// isChildPath returns true if the path lies beneath the parent path, at a path element (or list key) boundary
+func isChildPath(path string, parent string) bool {
+	return len(path) > len(parent) && strings.HasPrefix(path, parent) &&
+		(path[len(parent)] == '/' || path[len(parent)] == '[')
 }
